@@ -472,6 +472,23 @@ def absolute(a):
     return elementwise((a,), lambda x: z3.If(_to_int(x) >= 0, _to_int(x), -_to_int(x)) if not z3.is_real(x) else z3.If(x >= 0, x, -x))
 
 
+def squeeze(a, axis=None):
+    a = asarray(a)
+    if a.ndim == 0:
+        return unwrap0(a)
+    axes = _axes(a, axis) if axis is not None else tuple(d for d in range(a.ndim) if is_one(a.zshape[d]))
+    for d in axes:
+        if not is_one(a.zshape[d]):
+            raise ValueError("cannot select an axis to squeeze out which has size not equal to one")
+    keep = [d for d in range(a.ndim) if d not in axes]
+
+    def get(idx):
+        it = iter(idx)
+        return a.get(tuple(z3.IntVal(0) if d in axes else next(it) for d in range(a.ndim)))
+
+    return unwrap0(SymArray(tuple(a.zshape[d] for d in keep), get, a._dtype))
+
+
 def clip(x, lo=None, hi=None):
     def op(e, *b):
         it = iter(b)
